@@ -71,6 +71,9 @@ type bkState struct {
 	connHolds  map[string]chan struct{}
 	connParked chan string
 	hostile    map[int]*hostileConn // raw connections (hostile.go)
+	// C25: server maximum message expiry; payload (hex) -> the effective interval of that publish (0 = none)
+	msgexp int
+	pubEff map[string]int
 }
 
 // yield is installed as mqtt.VerifYield: the new connection's handler waits after its CONNACK until
@@ -349,6 +352,13 @@ func (b *bkState) collectX(bc int, sortTail int) string {
 				}
 				if !known {
 					c.pend = append(c.pend, [3]int{id, q, 0})
+				}
+			}
+			// C25: a delivered message carries a Message Expiry Interval no larger than the effective interval
+			// (the harness's histories take no time: the time remaining is the whole interval)
+			if p.typ == 3 && p.bad == "" && p.msgExp >= 0 {
+				if eff, ok := b.pubEff[p.payload]; ok && eff > 0 && p.msgExp > int64(eff) {
+					flags = append(flags, fmt.Sprintf("expiry-exceeds(c%d,%s,%d>%d)", n, p.payload, p.msgExp, eff))
 				}
 			}
 			// C24: a PUBLISH must carry a topic or an alias this connection has seen bound
@@ -732,7 +742,8 @@ func init() {
 		}
 		b := &bkState{s: s, conns: map[int]*bkConn{}, aclDeny: map[string]bool{}, pubHook: map[string]string{}, auth: "allow", t0: time.Now().Unix(), takeovers: map[string]chan struct{}{},
 			holds: map[*mqtt.Client]chan struct{}{}, parked: make(chan *mqtt.Client, 16),
-			holdsEarly: map[*mqtt.Client]chan struct{}{}, connHolds: map[string]chan struct{}{}, connParked: make(chan string, 16)}
+			holdsEarly: map[*mqtt.Client]chan struct{}{}, connHolds: map[string]chan struct{}{}, connParked: make(chan string, 16),
+			msgexp: kvInt(m, "msgexp", 86400), pubEff: map[string]int{}}
 		mqtt.VerifYield = b.yield
 		if v, ok := m["auth"]; ok {
 			b.auth = v
@@ -816,6 +827,20 @@ func init() {
 			return "no-conn"
 		}
 		pkt := buildClientPacket(c.ver, a[1:])
+		if a[1] == "PUBLISH" {
+			m := kvs(a[2:])
+			if _, seen := b.pubEff[m["p"]]; !seen && m["p"] != "" {
+				me := 0
+				if c.ver == 5 {
+					me = kvInt(m, "me", 0)
+				}
+				eff := me
+				if eff == 0 || (b.msgexp > 0 && b.msgexp < eff) {
+					eff = b.msgexp
+				}
+				b.pubEff[m["p"]] = eff
+			}
+		}
 		c.c.SetWriteDeadline(time.Now().Add(2 * time.Second))
 		_, err := c.c.Write(pkt)
 		if err == nil {
